@@ -120,7 +120,8 @@ MonFile(specsq, refs, bare, parses) ==
   /\ \A s \in specs : (s.name = "_" /\ s.path \notin anons) => Report("C04", "underscore " \o s.path)
   /\ \A s \in specs : nth(s.path) > 1 => Report("C04", "duplicate " \o s.path)
   /\ \A p \in bare : (p # cf.local /\ ~ \E s \in specs : s.path = p /\ s.name = ".")
-                       => (Report("C06", p) /\ Report("C04", "missing dot " \o p) /\ Report("C03", "bare reference without a dot-import: " \o p))
+                       => (Report("C06", p) /\ Report("C04", "missing dot " \o p) /\ Report("C03", "bare reference without a dot-import: " \o p)
+                           /\ (IsStd(p) => Report("C18", "standard-library package referenced without qualifier or import: " \o p)))
   \* C05: unique and legal names
   /\ \A s1, s2 \in specs :
        (s1.path # s2.path /\ s1.name \notin {"", "_", "."} /\ s1.name \in EffNames(s2)) => Report("C05", s1.name)
@@ -144,7 +145,8 @@ MonFile(specsq, refs, bare, parses) ==
   \* C08: every path already bound to a qualifier is still declared under it
   /\ \A p \in DOMAIN bound :
        (bound[p] # "" /\ ~ \E s \in specs : s.path = p /\ s.name \notin {"_", "."} /\ Provides(s, bound[p]))
-         => Report("C08", "undeclared " \o p)
+         => (Report("C08", "undeclared " \o p)
+             /\ (IsStd(p) => Report("C18", "a standard-library package referenced in an output produced with the File is not provided by its import block: " \o p)))
 
 RenderEv ==
   /\ IsEv("Render")
